@@ -205,7 +205,3 @@ Proof. destruct v; unfold all_Operator; all_in. Qed.
 Lemma table_ok_Operator_true : table_ok_Operator = true.
 Proof. vm_compute. reflexivity. Qed.
 
-Lemma generated_tables_logical_all_ok : forallb (fun r => fst (fst (fst r))) (map (fun r => (snd (fst (fst r)), true, true, true)) generated_tables_logical) = true.
-Proof. vm_compute. reflexivity. Qed.
-Lemma generated_tables_logical_no_clash : forallb (fun r => match snd r with [] => true | _ => false end) generated_tables_logical = true.
-Proof. vm_compute. reflexivity. Qed.
